@@ -297,7 +297,10 @@ func (w *c49World) step(m *c49Model, op c49Op, describe bool) (class, disc, obs 
 			if !gotSet[x] {
 				tag := ""
 				if emptyOnly[x] {
-					tag = ":child-has-only-empty-values"
+					// not judged: the KV contract (C16) treats an empty simple value as absent
+					// and over RPC empty and nil are indistinguishable, so whether a child that
+					// holds only zero-length values is listed is outside the statement
+					continue
 				}
 				return class, "list-missing-child" + tag, fmt.Sprintf("got %q want %q (missing %q)", sorted, want, x)
 			}
@@ -608,7 +611,7 @@ func c49(c *report.Check) {
 	c.Set("rule", fmt.Sprintf("(a) every history of length 1..%v over all %v operations {store 5 keys x 3 values, delete, load, exists, stat on the 5 keys %q; non-recursive list of %q; recursive list of %q}, each on a fresh ChordStorage over a fresh kv/memory KV, last step judged (prefixes are histories of their own) and, for lengths <= 3, all %v observers then applied and judged on the reached state; every mutator-only history of length 1..%v with last step and observer battery judged; (b) every interleaving of length %v of {X.Lock (single Acquire attempt), X.Unlock, X.RenewLockLease, clock advance 0.6*TTL} over instances sharing one KV, see lock_rule; class = (operation, outcome, number of stored keys) / (event, outcome, lease state)",
 		c.Coverage["history_depth_all_ops"], c.Coverage["history_ops_alphabet"], c49Keys, c49ListPrefixes, c49RecListPrefixes, c.Coverage["history_observer_battery_size"], c.Coverage["history_depth_mutators"], c.Coverage["lock_depth"]))
 	c.Assume("file-store reference: a flat map key->value; a directory exists iff a stored key lies below it; no key of the alphabet is a directory of another key; listing a missing directory may yield an empty list or fs.ErrNotExist; results of recursive listings, Modified times and the return value of deleting an absent key are not compared (statement silent)")
-	c.Assume("the empty value is stored as a non-nil zero-length slice")
+	c.Assume("the empty value is stored as a non-nil zero-length slice; a directory child that holds only zero-length values may or may not be listed (the KV contract treats empty simple values as absent) - not judged")
 	c.Assume("the KV is the real kv/memory implementation used directly (no chord routing / RPC marshalling in between)")
 }
 
